@@ -2,7 +2,9 @@ package c04
 
 import (
 	"bytes"
+	"compress/gzip"
 	"fmt"
+	"io"
 	"os"
 	"path/filepath"
 
@@ -82,11 +84,67 @@ func runToFile(c *core.Ctx) {
 		}
 		return b, true
 	}
-	fresh, ok := run(filepath.Join(dir, "fresh.out"), false)
+	// file names are not always plain ASCII (a sample name, a user's folder)
+	freshName := []string{"fresh.out", "\u6837\u672c r\u00e9sultat.out", "\u00e9chantillon_\u03a9.out"}[c.Idx%3]
+	fresh, ok := run(filepath.Join(dir, freshName), false)
 	if !ok {
 		return
 	}
 	c.Count("evaluations", 1)
+	if c.Idx%4 == 1 && kind != "csv" && kind != "json" {
+		// paired reads: the mates go to a second file, record for record
+		mateRecs := make([]itx.Rec, len(recs))
+		for i, r := range recs {
+			mateRecs[i] = itx.Rec{ID: r.ID + "_mate", Seq: r.Seq + "acgt", K: r.K}
+		}
+		mateParts := itx.Partition(mateRecs, sizes)
+		var wantRev []byte
+		okRev := c.Bounded("tofile:mates-alone:"+kind, wd, func() {
+			out, err := writeToFile(kind, itx.FeedBio(wrx.Bios(mateParts, withQual), inOrder(nb)), filepath.Join(dir, "mates-alone.out"),
+				obiformats.OptionsParallelWorkers(workers), obiformats.OptionsCompressed(compressed))
+			if err == nil {
+				for out.Next() {
+					out.Get()
+				}
+				obiiter.WaitForLastPipe()
+			}
+		})
+		if !okRev {
+			return
+		}
+		wantRev, _ = os.ReadFile(filepath.Join(dir, "mates-alone.out"))
+		fwd, rev := wrx.Bios(parts, withQual), wrx.Bios(mateParts, withQual)
+		for i := range fwd {
+			for j := range fwd[i] {
+				fwd[i][j].PairTo(rev[i][j])
+			}
+		}
+		p1, p2 := filepath.Join(dir, "paired_R1.out"), filepath.Join(dir, "paired_R2.out")
+		okP := c.Bounded("tofile:paired:"+kind, wd, func() {
+			in := itx.FeedBio(fwd, inOrder(nb))
+			in.MarkAsPaired()
+			out, err := writeToFile(kind, in, p1, obiformats.OptionsParallelWorkers(workers), obiformats.OptionsCompressed(compressed), obiformats.WritePairedReadsTo(p2))
+			if err == nil {
+				for out.Next() {
+					out.Get()
+				}
+				obiiter.WaitForLastPipe()
+			}
+		})
+		if !okP {
+			return
+		}
+		g1, _ := os.ReadFile(p1)
+		g2, _ := os.ReadFile(p2)
+		c.Count("evaluations", 1)
+		c.Count("paired_file_outputs", 1)
+		c.Key("tofile-paired/%s/%v/%d/%d", kind, compressed, nb, workers)
+		if !bytes.Equal(plain(g1, compressed), plain(fresh, compressed)) || !bytes.Equal(plain(g2, compressed), plain(wantRev, compressed)) {
+			c.Violate("tofile:paired:"+kind, "paired reads written to two files: a file does not hold exactly the records of its side, in order",
+				map[string]any{"writer": kind, "compressed": compressed, "workers": workers, "batches": sizes, "forward_bytes": len(g1), "forward_expected": len(fresh), "mates_bytes": len(g2), "mates_expected": len(wantRev)})
+			return
+		}
+	}
 	states := []string{"longer-garbage", "shorter", "previous-longer-output", "same-length", "append"}
 	state := states[(c.Idx/len(fileKinds))%len(states)]
 	var before []byte
@@ -125,6 +183,7 @@ func runToFile(c *core.Ctx) {
 	if c.Idx < len(fileKinds) {
 		c.Sample(det)
 	}
+	got, want = plain(got, compressed), plain(want, compressed)
 	if !bytes.Equal(got, want) {
 		cause := "tofile:content:" + kind + ":" + state
 		if len(got) > len(want) && bytes.Equal(got[:len(want)], want) {
@@ -135,6 +194,23 @@ func runToFile(c *core.Ctx) {
 		}
 		c.Violate(cause, "the output file does not hold exactly the output of the writer (file existing before the run)", det)
 	}
+}
+
+// plain: the text of an output, inflated when the writer compressed it (the compressed bytes of the
+// same text may legitimately differ from file to file: a header can name the file).
+func plain(b []byte, compressed bool) []byte {
+	if !compressed || len(b) == 0 {
+		return b
+	}
+	zr, err := gzip.NewReader(bytes.NewReader(b))
+	if err != nil {
+		return b
+	}
+	t, err := io.ReadAll(zr)
+	if err != nil {
+		return b
+	}
+	return t
 }
 
 func inOrder(n int) []int {
